@@ -12,11 +12,19 @@
 (*    multiplicity of pairwise merges are then observable independent of   *)
 (*    content.  The property's theorems are stated on provenance.          *)
 (*  - CONTENT ("marker documents"): source document k is                   *)
-(*        full : {d<k>: k, shared: k, lst: [k]}                             *)
+(*        full : {d<k>: k, shared: k, lst: [k]}        (Hash-rooted)        *)
 (*        bare : {d<k>: k, shared: k}                                       *)
+(*        seq  : [0, k]     sequ : [k]                 (Array-rooted)       *)
+(*        set  : !!set {0, k}   setu : !!set {k}       (Set-rooted)         *)
 (*        empty: the empty document (None)                                  *)
-(*    and PMerge is the C05 merge restricted to this family (disjoint      *)
-(*    d-keys, one shared scalar, one list) under the sampled policies.     *)
+(*    and PMerge is the C05 merge restricted to these families (disjoint   *)
+(*    d-keys, one shared scalar, one list; root-level Arrays and Sets that *)
+(*    share the element 0) under the sampled policies.  A stream mixes     *)
+(*    documents of ONE family with empty ones (merging different root      *)
+(*    types is a MergeException and outside C18).  The Array and Set       *)
+(*    families are the ones where a pairwise step REPLACES the root object *)
+(*    of the left document (arrays unique with a duplicate, arrays right,  *)
+(*    sets right; hashes right does so for Hashes).                        *)
 (*    Content(prov) - the fold of PMerge along a provenance - is what the  *)
 (*    harness reads back from Merger.data / stdout.                        *)
 (*                                                                         *)
@@ -31,11 +39,14 @@
 EXTENDS Naturals, Sequences, FiniteSets
 
 Modes    == {"condense_all", "merge_across", "matrix_merge"}
-Kinds    == {"full", "bare", "empty"}
+Kinds    == {"full", "bare", "seq", "sequ", "set", "setu", "empty"}
 HashPols == {"deep", "left", "right"}
 ArrPols  == {"all", "unique", "left", "right"}
-Pol(h, a) == [hashes |-> h, arrays |-> a]
-DefaultPol == Pol("deep", "all")
+SetPols  == {"unique", "left", "right"}
+Pol(h, a, sp) == [hashes |-> h, arrays |-> a, sets |-> sp]
+DefaultPol == Pol("deep", "all", "unique")
+RootOf(kind) == CASE kind \in {"full", "bare"} -> "map" [] kind \in {"seq", "sequ"} -> "seq"
+                  [] kind \in {"set", "setu"} -> "set" [] OTHER -> "-"
 
 Max(a, b) == IF a > b THEN a ELSE b
 Min(a, b) == IF a < b THEN a ELSE b
@@ -43,14 +54,23 @@ Range(s)  == {s[p] : p \in DOMAIN s}
 \* an explicit tuple instead of TLC's lazily evaluated function value (a long fold that applies
 \* EXCEPT to a lazy function builds a chain as deep as the fold)
 Tup(f)    == SubSeq(f, 1, Len(f))
+RECURSIVE SortedSeq(_)
+SortedSeq(S) == IF S = {} THEN <<>>
+                ELSE LET m == CHOOSE x \in S : \A y \in S : x <= y IN <<m>> \o SortedSeq(S \ {m})
 
 (***************************************************************************)
 (* CONTENT: marker documents and their pairwise (C05) merge                *)
 (***************************************************************************)
-Null == [nul |-> TRUE, keys |-> {}, shared |-> 0, lst |-> <<>>]
+Null == [nul |-> TRUE, root |-> "-", keys |-> {}, shared |-> 0, lst |-> <<>>]
+\* the list a source document carries (the lst key of a Hash, the elements of an Array, the
+\* members of a Set in ascending order)
+SrcList(k, kind) == CASE kind = "full" -> <<k>> [] kind \in {"seq", "set"} -> <<0, k>>
+                      [] kind \in {"sequ", "setu"} -> <<k>> [] OTHER -> <<>>
 Src(k, kind) ==
   IF kind = "empty" THEN Null
-  ELSE [nul |-> FALSE, keys |-> {k}, shared |-> k, lst |-> IF kind = "full" THEN <<k>> ELSE <<>>]
+  ELSE IF RootOf(kind) = "map"
+       THEN [nul |-> FALSE, root |-> "map", keys |-> {k}, shared |-> k, lst |-> SrcList(k, kind)]
+       ELSE [nul |-> FALSE, root |-> RootOf(kind), keys |-> {}, shared |-> 0, lst |-> SrcList(k, kind)]
 
 \* merger.py:271-328 _merge_simple_lists (both lists present, RHS non-empty)
 ArrMerge(a, b, ap) ==
@@ -63,9 +83,15 @@ ArrMerge(a, b, ap) ==
 PMerge(a, b, pol) ==
   IF b.nul THEN a                                  \* :825 RHS empty: nothing happens
   ELSE IF a.nul THEN b                             \* :834 LHS empty: RHS is taken whole, whatever the policy
+  ELSE IF a.root # b.root THEN [a EXCEPT !.root = "err"]   \* MergeException: outside the domain of C18
+  ELSE IF a.root = "seq" THEN [a EXCEPT !.lst = ArrMerge(a.lst, b.lst, pol.arrays)]   \* :672-711 _insert_list
+  ELSE IF a.root = "set" THEN                      \* :713-756 _insert_set, 451-511 _merge_sets
+       CASE pol.sets = "left"   -> a
+         [] pol.sets = "right"  -> b
+         [] pol.sets = "unique" -> [a EXCEPT !.lst = SortedSeq(Range(a.lst) \cup Range(b.lst))]
   ELSE IF pol.hashes = "left" THEN a               \* :645
   ELSE IF pol.hashes = "right" THEN b              \* :651
-  ELSE [nul |-> FALSE, keys |-> a.keys \cup b.keys, shared |-> b.shared,
+  ELSE [nul |-> FALSE, root |-> "map", keys |-> a.keys \cup b.keys, shared |-> b.shared,
         lst |-> IF b.lst = <<>> THEN a.lst
                 ELSE IF a.lst = <<>> THEN b.lst
                 ELSE ArrMerge(a.lst, b.lst, pol.arrays)]
@@ -81,7 +107,11 @@ Content(prov, kinds, pol) == ContentFrom(Null, prov, 1, kinds, pol)
 
 \* the sub-sequence of a provenance that leaves a trace in the data
 Visible(prov, kinds)  == SelectSeq(prov, LAMBDA k : kinds[k] # "empty")
-WithList(prov, kinds) == SelectSeq(prov, LAMBDA k : kinds[k] = "full")
+WithList(prov, kinds) == SelectSeq(prov, LAMBDA k : SrcList(k, kinds[k]) # <<>>)
+RECURSIVE ListsOf(_, _)
+ListsOf(prov, kinds) == IF prov = <<>> THEN <<>> ELSE SrcList(Head(prov), kinds[Head(prov)]) \o ListsOf(Tail(prov), kinds)
+\* a pairwise merge of these two source kinds is defined (same root type, or one side empty)
+SameFamily(kinds) == \A x \in Range(kinds), y \in Range(kinds) : x = "empty" \/ y = "empty" \/ RootOf(x) = RootOf(y)
 
 (***************************************************************************)
 (* MIRRORED heap: Merger objects point at document cells, document cells   *)
@@ -91,14 +121,17 @@ WithList(prov, kinds) == SelectSeq(prov, LAMBDA k : kinds[k] = "full")
 (***************************************************************************)
 HInit(kinds) ==
   [dp |-> Tup([k \in 1..Len(kinds) |-> IF kinds[k] = "empty" THEN 0 ELSE k]),
-   dc |-> Tup([k \in 1..Len(kinds) |-> [keys |-> {k}, shared |-> k, lp |-> IF kinds[k] = "full" THEN k ELSE 0]]),
-   lc |-> Tup([k \in 1..Len(kinds) |-> <<k>>]),
+   dc |-> Tup([k \in 1..Len(kinds) |-> IF RootOf(kinds[k]) \in {"seq", "set"}
+                                          THEN [root |-> RootOf(kinds[k]), keys |-> {}, shared |-> 0, lp |-> k]
+                                          ELSE [root |-> "map", keys |-> {k}, shared |-> k, lp |-> IF kinds[k] = "full" THEN k ELSE 0]]),
+   lc |-> Tup([k \in 1..Len(kinds) |-> SrcList(k, kinds[k])]),
    div |-> FALSE]      \* TRUE once a step would never return (a list appended to itself, :302/:327)
 
 HContentOfCell(h, c) ==
   IF c = 0 THEN Null
-  ELSE [nul |-> FALSE, keys |-> h.dc[c].keys, shared |-> h.dc[c].shared,
-        lst |-> IF h.dc[c].lp = 0 THEN <<>> ELSE h.lc[h.dc[c].lp]]
+  ELSE [nul |-> FALSE, root |-> h.dc[c].root, keys |-> h.dc[c].keys, shared |-> h.dc[c].shared,
+        lst |-> IF h.dc[c].lp = 0 THEN <<>>
+                ELSE IF h.dc[c].root = "set" THEN SortedSeq(Range(h.lc[h.dc[c].lp])) ELSE h.lc[h.dc[c].lp]]
 HContent(h, m) == HContentOfCell(h, h.dp[m])
 
 \* a private copy of the document in cell c (the repaired design's deepcopy)
@@ -120,6 +153,24 @@ HUnique(h, cur, snapshot, b, n) ==
 HMergeCell(h, a, rb, pol) ==
   IF rb = 0 THEN h                                               \* :825
   ELSE IF h.dp[a] = 0 THEN [h EXCEPT !.dp[a] = rb]               \* :838 self.data = rhs (the same object)
+  ELSE IF h.dc[h.dp[a]].root = "seq" THEN
+       \* root-level Arrays (a document cell of root "seq" stands for the list object itself and is never
+       \* modified; a step that builds a NEW list gives the Merger a new cell - self.data = merged_data :710)
+       LET A == h.dc[h.dp[a]]  B == h.dc[rb] IN
+       CASE pol.arrays = "left"  -> h
+         [] pol.arrays = "right" -> [h EXCEPT !.dp[a] = rb]                                   \* :299 return rhs
+         [] pol.arrays = "all"   -> IF A.lp = B.lp THEN [h EXCEPT !.div = TRUE]
+                                    ELSE [h EXCEPT !.lc[A.lp] = @ \o h.lc[B.lp]]
+         [] pol.arrays = "unique" ->
+              LET u == HUnique(h, A.lp, h.lc[A.lp], h.lc[B.lp], 1) IN
+              IF u.cur = A.lp THEN u.h
+              ELSE [u.h EXCEPT !.dc = Append(@, [A EXCEPT !.lp = u.cur]), !.dp[a] = Len(u.h.dc) + 1]
+  ELSE IF h.dc[h.dp[a]].root = "set" THEN
+       LET A == h.dc[h.dp[a]]  B == h.dc[rb] IN
+       CASE pol.sets = "left"   -> h
+         [] pol.sets = "right"  -> [h EXCEPT !.dp[a] = rb]                                    \* :484 return rhs
+         [] pol.sets = "unique" ->                                                            \* :510 lhs.add(ele)
+              [h EXCEPT !.lc[A.lp] = @ \o SelectSeq(h.lc[B.lp], LAMBDA x : x \notin Range(h.lc[A.lp]))]
   ELSE IF pol.hashes = "left" THEN h
   ELSE IF pol.hashes = "right" THEN [h EXCEPT !.dp[a] = rb]      \* :656 merged_data = rhs
   ELSE LET ca == h.dp[a]  A == h.dc[ca]  B == h.dc[rb]
@@ -291,7 +342,7 @@ NDocs(s) == SumTo(Lens(s), Len(s.files))
 
 TypeOK(s) ==
   /\ s.pc \in {"START", "IDLE", "RUN", "DONE"}
-  /\ s.mode \in Modes /\ s.f \in 0..Len(s.files)
+  /\ s.mode \in Modes /\ s.f \in 0..Len(s.files) /\ SameFamily(s.kinds)
   /\ \A p \in 1..Len(s.lhs) : s.lhs[p] # <<>> /\ Range(s.lhs[p]) \subseteq 1..NDocs(s)
   /\ s.pc = "RUN" => /\ s.mode = "condense_all" => (IF s.phase = "L" THEN s.i \in 2..Len(s.lhs) ELSE s.j \in 1..Len(s.rhs))
                      /\ s.mode = "merge_across" => s.i \in 1..Len(s.rhs)
@@ -327,15 +378,28 @@ ThReadBack(s) ==
   (s.pc = "DONE" /\ s.pol = DefaultPol) =>
     \A p \in 1..Len(s.out) :
       LET c == Content(s.out[p], s.kinds, s.pol) v == Visible(s.out[p], s.kinds) IN
-      /\ c.lst = WithList(s.out[p], s.kinds) /\ c.keys = Range(v) /\ c.nul = (v = <<>>)
-      /\ v # <<>> => c.shared = v[Len(v)]
-\* policy pass-through: with hashes=left|right the output is a single source document
+      /\ c.nul = (v = <<>>)
+      /\ c.root = "map" => /\ c.lst = WithList(s.out[p], s.kinds) /\ c.keys = Range(v)
+                            /\ c.shared = v[Len(v)]
+      /\ c.root = "seq" => c.lst = ListsOf(s.out[p], s.kinds)              \* arrays all: concatenation
+      /\ c.root = "set" => c.lst = SortedSeq(Range(ListsOf(s.out[p], s.kinds)))
+      /\ c.root # "err"
+\* policy pass-through: with hashes=left|right (Hashes), arrays=left|right (root Arrays), sets=left|right
+\* (root Sets) an output is a single source document; arrays=unique gives each element once, in the
+\* order of first occurrence
+RECURSIVE FirstOccR(_, _)
+FirstOccR(seq, acc) == IF seq = <<>> THEN acc
+                       ELSE FirstOccR(Tail(seq), IF Head(seq) \in Range(acc) THEN acc ELSE Append(acc, Head(seq)))
+FirstOcc(seq) == FirstOccR(seq, <<>>)
 ThPolicy(s) ==
-  (s.pc = "DONE" /\ s.pol.hashes # "deep") =>
+  s.pc = "DONE" =>
     \A p \in 1..Len(s.out) :
-      LET c == Content(s.out[p], s.kinds, s.pol) v == Visible(s.out[p], s.kinds) IN
+      LET c == Content(s.out[p], s.kinds, s.pol) v == Visible(s.out[p], s.kinds)
+          side == IF c.root = "map" THEN s.pol.hashes ELSE IF c.root = "seq" THEN s.pol.arrays ELSE s.pol.sets IN
       IF v = <<>> THEN c = Null
-      ELSE c = Src(IF s.pol.hashes = "left" THEN v[1] ELSE v[Len(v)], IF s.pol.hashes = "left" THEN s.kinds[v[1]] ELSE s.kinds[v[Len(v)]])
+      ELSE /\ side = "left"  => c = Src(v[1], s.kinds[v[1]])
+           /\ side = "right" => c = Src(v[Len(v)], s.kinds[v[Len(v)]])
+           /\ (c.root = "seq" /\ side = "unique") => c.lst = FirstOcc(ListsOf(s.out[p], s.kinds))
 
 \* the mirrored object graph agrees with the value semantics (FAILS for matrix_merge in the
 \* pinned design copy = FALSE: an RHS document is modified through an alias before it is reused)
